@@ -404,6 +404,11 @@ def scenario_readers_traced(s, n_readers, calls, timeout, bursts):
             x = collections.deque.popleft(self)
             ev.append(("D", me(), x.args[0], x.receiver_seqnr))
             return x
+
+        def pop(self, *a):
+            x = collections.deque.pop(self, *a)
+            ev.append(("D", me(), x.args[0], x.receiver_seqnr))
+            return x
     old = r._queue
     poke(r, "_queue", LogDeque(old, maxlen=old.maxlen))
     results = {}
@@ -420,6 +425,8 @@ def scenario_readers_traced(s, n_readers, calls, timeout, bursts):
                 results[rid] = ("sig", sig.args[0], sig.receiver_seqnr)
             except QMI_TimeoutException:
                 results[rid] = ("timeout",)
+            except Exception as e:  # noqa
+                results[rid] = ("exc", type(e).__name__)
     ths = [real_threading.Thread(target=reader, args=(k,)) for k in range(n_readers)]
     for t in ths:
         t.start()
@@ -484,6 +491,10 @@ def trace_labels(obs):
     fin = []
     for rid in sorted(results):
         x = results[rid]
+        if x[0] == "exc":
+            why.append("call %d of get_next_signal ended with %s (neither a signal nor the timeout error)" % (rid, x[1]))
+            fin.append("(%s, RIdle)" % cnat(rid))
+            continue
         fin.append("(%s, %s)" % (cnat(rid), "RTimedOut" if x == ("timeout",) else "RGot %s %s" % (cZ(x[1]), cN(x[2]))))
     return labels, fin, arrivals, why
 
@@ -742,6 +753,26 @@ def replay(rep):
         why = oracle_readers(*sh, res)
         print(res["status"], res.get("obs"), why or "property holds on this schedule")
         return 1 if why else 0
+    if c.get("readers_traced"):
+        import dsched
+        import common
+        import qmi.core.pubsub, qmi.core.messaging, qmi.core.task  # noqa
+        sh = (c["shape"][0], c["shape"][1], c["shape"][2], tuple(tuple(b) for b in c["shape"][3]))
+        res = dsched.run_forked([(scenario_readers_traced, sh, dict(strategy="replay", schedule=list(c.get("schedule") or [])))], nproc=1)[0]
+        if res["status"] != "ok":
+            print(res["status"], str(res.get("trace") or "")[:600])
+            return 1
+        labels, fin, arrivals, why = trace_labels(res["obs"])
+        print("events:", res["obs"]["events"])
+        print("results:", res["obs"]["results"])
+        term = "(64%%nat, DiscardOld, %s, %s)" % (clist(labels), clist(fin))
+        ck = common.Check("C09", "quick", 0)
+        ck.build_theory(THEORY)
+        ok = ck.model_eval("C09.Corr", "check_trace %s" % term)
+        print("model accepts the trace:", ok)
+        print("oracle:", "; ".join(why) or "property holds on this schedule")
+        ck.cleanup()
+        return 1 if (why or "true" not in str(ok)) else 0
     if c.get("blocking"):
         import dsched
         import qmi.core.pubsub, qmi.core.messaging, qmi.core.task  # noqa
